@@ -447,6 +447,10 @@ def c04(ck):
     return runs
 
 
+# every signal that carries an address or is a usual crash reason (incl. SIGSYS, whose siginfo has a second address), then the rest
+SIGNOS = [31, 11, 7, 4, 8, 5, 6, 3] + [s for s in range(1, 65) if s not in (31, 11, 7, 4, 8, 5, 6, 3, 32, 33)]
+
+
 def _ctx_scenarios(quick, seed):
     import random
     rnd = random.Random(seed)
@@ -459,7 +463,7 @@ def _ctx_scenarios(quick, seed):
         if k % 3 != 2:
             sp = {"thread_sp": blamed["slot"]} if isinstance(blamed, dict) else {"thread_sp": 0}
             w["crash_context"] = {"sp": sp, "ip": {"region": "code", "off": rnd.randrange(0, 8192)}, "gregs_seed": seed * 1000 + k, "fp_seed": seed * 77 + k,
-                                  "siginfo": {"signo": rnd.choice([11, 7, 6, 4, 8]), "code": rnd.choice([1, 2, 128, -6]), "addr": hex(rnd.getrandbits(64))}}
+                                  "siginfo": {"signo": SIGNOS[(k - k // 3) % len(SIGNOS)], "code": rnd.choice([1, 2, 128, -6]), "addr": hex(rnd.getrandbits(64))}}
         scns.append({"id": f"ctx/{k}", "target": tgt, "writer": w, "want_regs": True})
     return scns
 
@@ -595,6 +599,14 @@ def _mem_scenarios(quick, seed):
         if k < len(ipoffs) or rnd.random() < 0.7:
             w["crash_context"] = {"sp": {"thread_sp": 0}, "ip": ip}
         scns.append({"id": f"mem/{k}/{name}", "target": tgt, "writer": w})
+    # shortened stacks (size limit, > 20 threads, stack pointers on both sides of the 2 KiB chunk boundary): their regions too
+    # must reproduce target memory at the recorded range
+    for n, lim in ([(24, 1000), (40, 300000)] if quick else [(n, l) for n in (21, 24, 40, 64) for l in (1000, 200000, 300000)]):
+        threads = [{"mode": "pause", "stack_pages": 1 + (i % 3), "sp_off": [100, 2047, 2048, 3000, 4000, 1024, 2500][i % 7] + 4096 * (i % (1 + i % 3))} for i in range(n - 1)]
+        regions = [{"name": "app0", "len": 4097, "lead": 3, "above": "hole"}, {"name": "code", "len": 8192, "exec": True, "below": "mapped", "above": "hole"}]
+        w = {"blamed": {"slot": n - 3}, "size_limit": lim, "app_memory": [{"addr": {"region": "app0"}, "len": 4097}],
+             "crash_context": {"sp": {"thread_sp": n - 3}, "ip": {"region": "code", "off": 300}}}
+        scns.append({"id": f"mem/limit{lim}/n{n}", "target": {"threads": threads, "regions": regions}, "writer": w})
     return scns
 
 
